@@ -120,6 +120,21 @@ CHECKS = {
              "tier, sampled for larger trees.",
         note="Validity of a token is known by construction (trusts Ed25519 and SHA3-256). Delivery through IdentityCommunity "
              "messages is exercised by C17/C01 scenarios, not here."),
+    "C19": dict(
+        level="fault_enumeration", design="DESIGN.md 4/C19",
+        technique=TECH + ": process death enumerated at every SQL statement / commit / close / insert boundary of scripted and "
+                         "seeded workloads (file-copy crash model on real SQLite files), second crash during recovery, and (thorough) "
+                         "real SIGKILL at every N-th write-class system call via strace fault injection",
+        text="Workloads of credential, attestation and attestation-blob inserts with reopen cycles run against the real file-backed "
+             "IdentityManager / IdentityDatabase / AttestationsDB; at every crash point (before each SQL statement incl. those of the "
+             "schema script run on every open, after each commit/close/insert) the db/-wal/-shm files are copied and reopened by "
+             "fresh objects, again at every crash point of that reopen. The reopen must not raise, every acknowledged row must be "
+             "present byte-identical, every visible row must be one offered in full, and every rebuilt pseudonym must verify. "
+             "Quick: all 518 first-level points of 6 scripted workloads + their second-level points + 60 seeded workloads "
+             "(complete). Thorough: 2000 seeded workloads, 351 real SIGKILLs at write/pwrite64/ftruncate/fsync/fdatasync/unlink "
+             "calls, self-killing children validating the copy model.",
+        note="Models process death (page cache survives), not power loss. SQLite itself is trusted. strace tier is skipped with a "
+             "probe if ptrace is unavailable."),
 }
 
 NOT_APPLICABLE = {
